@@ -46,7 +46,7 @@ def crypt_scenario(rng, idx, big, mid=None):
     return {"id": "k%d" % idx, "key": key, "pkts": pk}
 
 
-def run(ctx, prop):
+def collect(ctx, prop):
     quick = ctx.tier == "quick"
     rng = random.Random(ctx.seed * 104729 + 3)
     r0 = ctx.tlc_ok("MC_Crypt", cfg="MC_Crypt.cfg")
@@ -108,11 +108,14 @@ def run(ctx, prop):
            "samples": [dict(scen[-1], pkts=[dict(p, body="%d octets" % len(p.get("body", []))) for p in scen[-1]["pkts"]])],
            "client_counts": cnt, "server_events": st1["events"], "model_divergences": divs,
            "other_property_observations": sorted(others), "exhaustive": False}
-    return conclude(ctx, "model_checking", cov,
-                    ["MD5.tla is RFC 1321 transcribed to TLA+ (test suite re-run as ASSUME each time); Crypt.tla is RFC 8907 section 4.5",
-                     "input packets are obfuscated by Go crypto/md5 for construction only; every expected octet is recomputed by TLC",
-                     "client direction uses loopback TCP (127.0.0.1)"],
-                    found)
+    return cov, ["MD5.tla is RFC 1321 transcribed to TLA+ (test suite re-run as ASSUME each time); Crypt.tla is RFC 8907 section 4.5",
+                 "input packets are obfuscated by Go crypto/md5 for construction only; every expected octet is recomputed by TLC",
+                 "client direction uses loopback TCP (127.0.0.1)"], found
+
+
+def run(ctx, prop):
+    cov, a, found = collect(ctx, prop)
+    return conclude(ctx, "model_checking", cov, a, found)
 
 
 def replay(ctx, prop, obj):
